@@ -272,6 +272,44 @@ func libCostWords(y *big.Rat, B uint) float64 {
 	return terms * terms * q / 64
 }
 
+// mantissaQ returns q such that the mantissa m in [1/2,1) of 1-f = m*2^-sh satisfies 1-m ~ 2^-q.
+func mantissaQ(f *big.Rat) int {
+	y := new(big.Rat).Sub(ratOne(), f)
+	num, den := y.Num(), y.Denom()
+	sh := den.BitLen() - num.BitLen()
+	n2 := new(big.Int).Lsh(num, uint(sh))
+	if n2.Cmp(den) >= 0 {
+		n2.Rsh(n2, 1)
+	}
+	return new(big.Int).Add(den, n2).BitLen() - new(big.Int).Sub(den, n2).BitLen()
+}
+
+// libCallTooCostly is the general form of the cost guard (see genConstructed and
+// findings/C37.md): it predicts the precision level the library will escalate to
+// from the distance of the result to the nearest integer (harness reference at
+// 2048 bits) and the words big.Float.Add will clear. Exact-rational inputs never
+// reach the series. Not a correctness decision: a skipped call is only counted.
+func libCallTooCostly(pool, total uint64, f *big.Rat, k uint) bool {
+	pool = min(pool, total)
+	if total == 0 || pool == 0 || f.Sign() <= 0 || f.Cmp(ratOne()) >= 0 {
+		return false
+	}
+	q := mantissaQ(f)
+	if q <= 280 { // even the deepest level stays below the budget
+		return false
+	}
+	if _, ok := exactPower(pool, total, f); ok {
+		return false
+	}
+	sep := sepBits(refPower(pool, total, f, 2048), k, 2048)
+	tb := 576.0
+	for tb < sep+8 && tb < 18432 {
+		tb *= 2
+	}
+	terms := tb/3.17 + 16
+	return terms*terms*float64(q)/64 > 1.5e8
+}
+
 func genConstructed(rt *rapid.T) *thCase {
 	ms := []uint64{1, 2, 2, 2, 3, 3, 4, 5, 6, 7, 8, 12, 16, 24, 31, 40, 64}
 	m := ms[rapid.IntRange(0, len(ms)-1).Draw(rt, "m")]
@@ -599,7 +637,7 @@ type c37 struct {
 // checkThreshold runs the threshold oracle for one case (both modes). It
 // returns the library's values (nil where it returned an error) and whether
 // each is confirmed by an oracle.
-func (h *c37) checkThreshold(c *thCase, run [2]bool, rep reporter, fatal func(string)) (got [2]*big.Int, confirmed [2]bool, o thOracle) {
+func (h *c37) checkThreshold(c *thCase, run [2]bool, rep reporter, fatal func(string)) (got [2]*big.Int, confirmed [2]bool, o thOracle, ran [2]bool) {
 	rec := h.rec
 	o, fault := decide(c, h.maxPrec)
 	if fault != "" {
@@ -611,6 +649,11 @@ func (h *c37) checkThreshold(c *thCase, run [2]bool, rep reporter, fatal func(st
 		if !run[i] {
 			continue
 		}
+		if libCallTooCostly(c.Pool, c.Total, c.F, thK[i]) {
+			rec.Class("library_call_skipped_by_cost_guard")
+			continue
+		}
+		ran[i] = true
 		g, err := lc.CertifiedNatThresholdWithMode(c.Pool, c.Total, c.F, mode)
 		rec.Eval()
 		if c.F.Cmp(fCopy) != 0 {
@@ -771,7 +814,7 @@ func TestC37(t *testing.T) {
 					}
 					c := &thCase{Pool: pool, Total: total, F: big.NewRat(a, b), StakeClass: "sweep", FClass: "sweep"}
 					rep := func(key, what string, cs any) bool { return rec.Violation(key, what, cs) }
-					got, _, o := h.checkThreshold(c, [2]bool{true, true}, rep, fatalT)
+					got, _, o, _ := h.checkThreshold(c, [2]bool{true, true}, rep, fatalT)
 					sweepN++
 					if a > 0 && a < b && pool > 0 && o.want[0] != nil && got[0] != nil {
 						rec.NonTrivial(fmt.Sprintf("%d/%d f=%d/%d", pool, total, a, b), nil)
@@ -812,7 +855,7 @@ func TestC37(t *testing.T) {
 			run := [2]bool{}
 			run[d.mode] = true
 			rep := func(key, what string, cs any) bool { return rec.Violation(key, what, cs) }
-			got, _, o := h.checkThreshold(c, run, rep, fatalT)
+			got, _, o, _ := h.checkThreshold(c, run, rep, fatalT)
 			rec.Class(c.FClass)
 			switch {
 			case got[d.mode] == nil:
@@ -836,7 +879,7 @@ func TestC37(t *testing.T) {
 			run[rapid.IntRange(0, 1).Draw(rt, "skipMode")] = false
 		}
 		rec.Class(fmt.Sprintf("cost_tier_%d", tier))
-		got, confirmed, o := h.checkThreshold(c, run, rep, fatal)
+		got, confirmed, o, run := h.checkThreshold(c, run, rep, fatal)
 		h.classify(c, &o, got)
 		interior := c.F.Sign() > 0 && c.F.Cmp(ratOne()) < 0 && c.Pool > 0
 		if interior && (o.want[0] != nil || o.want[1] != nil) {
@@ -936,7 +979,9 @@ func (h *c37) checkMonotone(rt *rapid.T, c *thCase, got [2]*big.Int, o *thOracle
 			continue
 		}
 		// sigma
-		if v, err := lc.CertifiedNatThresholdWithMode(p2, t2, c.F, mode); err == nil && v != nil {
+		if t2 == 0 || libCallTooCostly(p2, t2, c.F, thK[i]) {
+			rec.Class("mono_variant_skipped_by_cost_guard")
+		} else if v, err := lc.CertifiedNatThresholdWithMode(p2, t2, c.F, mode); err == nil && v != nil {
 			rec.Eval()
 			le12 := sigmaLE(c.Pool, c.Total, p2, t2)
 			le21 := sigmaLE(p2, t2, c.Pool, c.Total)
@@ -959,7 +1004,9 @@ func (h *c37) checkMonotone(rt *rapid.T, c *thCase, got [2]*big.Int, o *thOracle
 			}
 		}
 		// f
-		if v, err := lc.CertifiedNatThresholdWithMode(c.Pool, c.Total, f2, mode); err == nil && v != nil {
+		if libCallTooCostly(c.Pool, c.Total, f2, thK[i]) {
+			rec.Class("mono_variant_skipped_by_cost_guard")
+		} else if v, err := lc.CertifiedNatThresholdWithMode(c.Pool, c.Total, f2, mode); err == nil && v != nil {
 			rec.Eval()
 			cmp := c.F.Cmp(f2)
 			bad := (cmp <= 0 && got[i].Cmp(v) > 0) || (cmp >= 0 && v.Cmp(got[i]) > 0)
